@@ -85,6 +85,7 @@ JudgeFit(e, O) ==
   IF e.outcome = 2 THEN {"C08_internal_error"}
   ELSE IF e.outcome = 1 THEN {}
   ELSE Flag(O.fitted, "C08_not_fitted")
+   \cup Flag(e.inputs_unchanged, "C07_inputs_modified")        \* copy=True: fit leaves X, y, X_dev, y_dev alone
    \cup WfClauses(O)
    \cup Flag(e.attrs_coherent, "C08_attributes_incoherent")
    \cup (IF WfClauses(O) # {} THEN {} ELSE
